@@ -28,6 +28,7 @@ from __future__ import annotations
 
 import ast
 import contextlib
+import copy
 import dataclasses
 import datetime
 import operator
@@ -455,7 +456,6 @@ def load(val: _T) -> PythonValueT | _T:
     return strload(val) if inspection.istexttype(val.__class__) else val  # type: ignore[arg-type]
 
 
-@compat.lru_cache(maxsize=100_000)
 def strload(val: str | bytes | bytearray | memoryview) -> PythonValueT:
     """Attempt to decode a string-like input into a Python value.
 
@@ -478,6 +478,15 @@ def strload(val: str | bytes | bytearray | memoryview) -> PythonValueT:
     Args:
         val: The string-like input to be decoded.
     """
+    loaded = _strload(val)
+    # Never hand out the cached instance of a (mutable) container.
+    if isinstance(loaded, _IMMUTABLE_TYPES):
+        return loaded
+    return copy.deepcopy(loaded)
+
+
+@compat.lru_cache(maxsize=100_000)
+def _strload(val: str | bytes) -> PythonValueT:
     with contextlib.suppress(ValueError):
         return compat.json.loads(val)
 
@@ -486,6 +495,9 @@ def strload(val: str | bytes | bytearray | memoryview) -> PythonValueT:
         return ast.literal_eval(decoded)
 
     return decoded
+
+
+_IMMUTABLE_TYPES = (str, bytes, int, float, complex, bool, type(None))
 
 
 PythonPrimitiveT: t.TypeAlias = "bool | int | float | str | None"
